@@ -578,6 +578,7 @@ class DatasetProcessor:
             bam = pysam.AlignmentFile(bam_file, "rb", require_index=True)
             self.alignment_stat_counter.add(AlignmentType.unaligned, bam.unmapped)
         self.alignment_stat_counter.print_start("Alignments collected, overall alignment statistics:")
+        self.alignment_stat_counter.dump(sample.out_raw_file + "_alignment_stat")
 
         info_dumper = open(info_file, "wb")
         write_int(total_assignments, info_dumper)
@@ -726,6 +727,10 @@ class DatasetProcessor:
         polya_assignments = read_int(info_loader)
         all_read_groups = set(read_list(info_loader, read_string))
         info_loader.close()
+        # alignment statistics are needed for __not_aligned counts even when read collection is skipped
+        alignment_stat_file = dump_filename + "_alignment_stat"
+        if os.path.exists(alignment_stat_file):
+            self.alignment_stat_counter = EnumStats(alignment_stat_file)
         return total_assignments, polya_assignments, all_read_groups
 
     def merge_assignments(self, sample, aggregator, chr_ids):
